@@ -29,34 +29,69 @@ TOUR = {
 }
 
 
-def _norm(node):
+def _desc(node, env):
+    """rename-invariant description of an argument expression: what object it denotes"""
     import re
 
-    s = ast.unparse(node).replace("self.", "").replace("args.no_disinfection", "no_disinfection")
-    s = re.sub(r"\breg\b", "devices", s)
-    return s.replace("'", '"')
-
-
-def _construction(fn):
-    """ordered (kind, text) list of the actor constructions / registrations / initial defers of a function body"""
-    out = []
-    for node in ast.walk(fn):
-        if not isinstance(node, ast.Call):
-            continue
+    if isinstance(node, ast.Name):
+        return env.get(node.id, "name:" + node.id)
+    if isinstance(node, ast.Attribute) and isinstance(node.value, ast.Name) and node.value.id == "self":
+        return env.get("self." + node.attr, "name:" + node.attr)
+    if isinstance(node, ast.Attribute) and isinstance(node.value, ast.Name) and node.value.id == "args":
+        return "arg:" + node.attr
+    if isinstance(node, (ast.List, ast.Tuple)):
+        return "[" + ", ".join(_desc(e, env) for e in node.elts) + "]"
+    if isinstance(node, ast.ListComp):
+        # [reg.get_sensor(k) for k in ("a", "b")]
+        try:
+            gen = node.generators[0]
+            if isinstance(gen.iter, (ast.Tuple, ast.List)) and isinstance(node.elt, ast.Call) and isinstance(node.elt.func, ast.Attribute):
+                return "[" + ", ".join(f"{node.elt.func.attr}({e.value!r})" for e in gen.iter.elts) + "]"
+        except Exception:  # noqa: BLE001
+            pass
+        return "listcomp:" + ast.unparse(node)
+    if isinstance(node, ast.Call):
         f = node.func
-        if isinstance(f, ast.Attribute) and f.attr == "start" and isinstance(f.value, ast.Name) and f.value.id[0].isupper():
-            if f.value.id in ("Mqtt", "Lcd"):
-                continue
-            out.append((node.lineno, "start", f.value.id + "(" + ", ".join(_norm(a) for a in node.args) + ")"))
-        elif isinstance(f, ast.Attribute) and f.attr == "register":
-            out.append((node.lineno, "register", ", ".join(_norm(a) for a in node.args)))
-        elif isinstance(f, ast.Attribute) and f.attr in ("get_valve", "get_sensor", "get_pump", "get_device") and node.args and isinstance(node.args[0], ast.Constant):
-            if node.args[0].value == "lcd":
-                continue
-            out.append((node.lineno, "get", f.attr + "(" + repr(node.args[0].value) + ")"))
-        elif isinstance(f, ast.Attribute) and f.attr == "defer" and isinstance(f.value, ast.Attribute) and f.value.attr in ("do_read", "do_write"):
-            out.append((node.lineno, "defer", _norm(f.value)))
-    return [(k, t) for (_l, k, t) in sorted(out)]
+        if isinstance(f, ast.Attribute) and f.attr == "proxy" and isinstance(f.value, ast.Call):
+            return _desc(f.value, env)
+        if isinstance(f, ast.Attribute) and f.attr == "start" and isinstance(f.value, ast.Name):
+            return "actor:" + f.value.id
+        if isinstance(f, ast.Attribute) and f.attr in ("get_valve", "get_sensor", "get_pump", "get_device") and node.args and isinstance(node.args[0], ast.Constant):
+            return f"{f.attr}({node.args[0].value!r})"
+        if isinstance(f, ast.Name) and f.id[0].isupper():
+            return "obj:" + f.id
+    if isinstance(node, ast.Constant):
+        return repr(node.value)
+    s = ast.unparse(node)
+    return "expr:" + re.sub(r"\bself\.", "", s)
+
+
+def _construction(fn, devices_names=("devices", "reg"), skip=("Mqtt", "Lcd", "FakeMqtt", "FakeLcd")):
+    """{class: [argument descriptions]} of the actor constructions, the dispatcher registration (as a set) and the initial
+    defers of a function body, with local names resolved to what they denote (insensitive to renaming and to the order of
+    independent statements)"""
+    env = {n: "devices" for n in devices_names}
+    env["no_disinfection"] = "arg:no_disinfection"
+    starts, register, defers = {}, None, set()
+    for st in fn.body:
+        for node in ast.walk(st):
+            if isinstance(node, ast.Call) and isinstance(node.func, ast.Attribute):
+                f = node.func
+                if f.attr == "start" and isinstance(f.value, ast.Name) and f.value.id[0].isupper() and f.value.id not in skip:
+                    starts[f.value.id] = [_desc(a, env) for a in node.args]
+                elif f.attr == "register":
+                    register = sorted(_desc(a, env) for a in node.args)
+                elif f.attr == "defer" and isinstance(f.value, ast.Attribute) and f.value.attr in ("do_read", "do_write"):
+                    defers.add(_desc(f.value.value, env) + "." + f.value.attr)
+        if isinstance(st, ast.Assign) and len(st.targets) == 1:
+            t = st.targets[0]
+            key = t.id if isinstance(t, ast.Name) else ("self." + t.attr if isinstance(t, ast.Attribute) and isinstance(t.value, ast.Name) and t.value.id == "self" else None)
+            if key is not None and key not in devices_names:
+                d = _desc(st.value, env)
+                if d.startswith("obj:Encoder"):
+                    d = "encoder"
+                env[key] = d
+    return {"starts": starts, "register": register, "defers": sorted(defers)}
 
 
 def structural(chk):
@@ -66,13 +101,17 @@ def structural(chk):
     sim_cls = [n for n in ast.walk(ast.parse(sim_src)) if isinstance(n, ast.ClassDef) and n.name == "PoolSystem"][0]
     sim_fn = [n for n in sim_cls.body if isinstance(n, ast.FunctionDef) and n.name == "__init__"][0]
     a, b = _construction(main_fn), _construction(sim_fn)
-    # the simulator reads the temperature sensors in a comprehension: expand
-    b = [x for x in b if not (x[0] == "get" and x[1] == "get_sensor('k')")]
-    a2 = [x for x in a if not (x[0] == "get" and x[1].startswith("get_sensor('temperature_"))]
-    diff = [x for x in a2 if x not in b] + [("sim-only",) + x for x in b if x not in a2]
-    ok = (a2 == b)
-    chk.correspondence("wiring: actor constructions, dispatcher registration and initial defers of poupool.main() (AST) vs the simulator's PoolSystem", len(a2), 0 if ok else max(1, len(diff)), detail=diff[:6] or None)
-    return ok
+    diff = []
+    for c in sorted(set(a["starts"]) | set(b["starts"])):
+        if a["starts"].get(c) != b["starts"].get(c):
+            diff.append({"class": c, "main": a["starts"].get(c), "simulator": b["starts"].get(c)})
+    if a["register"] != b["register"]:
+        diff.append({"register": a["register"], "simulator": b["register"]})
+    if a["defers"] != b["defers"]:
+        diff.append({"defers": a["defers"], "simulator": b["defers"]})
+    n = len(a["starts"]) + 2
+    chk.correspondence("wiring: what every controller is constructed with, the dispatcher registration and the initial defers of poupool.main() (AST, local names resolved to the objects they denote) vs the simulator's PoolSystem", n, len(diff), detail=diff[:6] or None)
+    return not diff
 
 
 def _mainrun(spec, timeout=900):
